@@ -580,8 +580,13 @@ def r06_12(rep: Report) -> None:
                 env[norm(st.target)] = {k: v for k, v in out.items() if v}
             elif isinstance(st, ast.For) and seg_slice(_through(st.iter, env)) and not st.orelse:
                 tv = norm(st.target)
+                copies = {norm(b_.targets[0]) for b_ in st.body if isinstance(b_, ast.Assign) and len(b_.targets) == 1
+                          and isinstance(b_.targets[0], ast.Name) and norm(b_.value) == f'{tv}.duration'}
                 for b_ in st.body:
-                    if isinstance(b_, ast.AugAssign) and isinstance(b_.op, ast.Add) and norm(b_.value) == f'{tv}.duration':
+                    if isinstance(b_, ast.Assign) and len(b_.targets) == 1 and norm(b_.targets[0]) in copies:
+                        continue            # value = seg.duration (what an inlined summing helper leaves)
+                    if isinstance(b_, ast.AugAssign) and isinstance(b_.op, ast.Add) and (
+                            norm(b_.value) == f'{tv}.duration' or norm(b_.value) in copies):
                         cur = env.get(norm(b_.target), {norm(b_.target): 1})
                         env[norm(b_.target)] = {k: v for k, v in {**cur, DSUM: cur.get(DSUM, 0) + 1}.items() if v}
                     else:
